@@ -102,6 +102,14 @@ CHECKS = {
         "plain positions between/after top-level statements; lists and maps of 0-7 entries; sinks with every attribute subset; string literals over 13 "
         "pieces (quotes, escapes, newlines, {{ }}, multi-byte) of length <= 3-4 in the four quoting forms; tool.FormatFiles on a directory tree. "
         "Oracle: printing succeeds, the printed text parses to an equal tree, printing again gives the same text, unparseable files are left alone"),
+ "C01": dict(engine="engine-B", cat="exploration", ref="DESIGN.md 5, 7/C01", note="'an equal value' = Go equality for scalars, deep equality for lists and maps; event states hold ECAL values; left open: a rule suppressing itself, regular expressions against a NULL state value, wildcard or empty segments inside an event kind; the processor part uses one real worker (the outcome is schedule independent)", tech="bounded exhaustive enumeration of rule sets x events x event histories against an independent reference matcher; breadth-first enumeration of event histories for the hidden trigger-cache state",
+   text="(1) RuleIndex.Match / IsTriggering for single rules with every kind pattern over {a, b, *} of length <= 2 (thorough 3) x every state pattern over "
+        "two keys with required values {absent, NULL, 1, \"x\", regexp, list, map}, rules with two (overlapping / duplicate) kind patterns, pairs of rules "
+        "sharing a leaf and pairs with different patterns, against every event kind of length 1-3 x 64 event states (780 000 cases quick); (2) leaf "
+        "capacity: 1..130 state rules on one kind, every rule probed; (3) the real Processor: 10 rule sets with scope requirements, suppression "
+        "lists, duplicate patterns and state patterns x 5 cascade scopes x every history of <= 2 (thorough 3) events with same / different names "
+        "and kinds: the rules fired per event must equal the reference set (matching, in scope, unsuppressed), each exactly once, and a triggering "
+        "event is never skipped"),
 }
 
 ENGINES = [
